@@ -10,8 +10,9 @@ from harness.framework import Suite
 from harness.swctext import Expect
 
 PID = "C16"
-LEAN_MODS = ["SwcVerif.Props.C16", "SwcVerif.Props.C16Length", "SwcVerif.Props.C16Pair", "SwcVerif.Props.C16PairLoc"]
+LEAN_MODS = ["SwcVerif.Props.C16", "SwcVerif.Props.C16Length", "SwcVerif.Props.C16Pair", "SwcVerif.Props.C16PairLoc", "SwcVerif.Props.C16Asm"]
 THEOREMS = [
+    "C16Asm.machine_eq_sub", "C16Asm.assemble_eq", "C16Asm.assemble_sorted", "C16Asm.assemble_wf", "C16Asm.assemble_length", "C16Asm.branch_is_chain",
     "C16.cumdist_spec", "C16.linspace_spec", "C16.iso_step_le", "C16.isoPositions_adjust", "C16.isoPositions_zero", "C16.isoPositions_noadjust",
     "C16.interp_endpoints", "C16.interp_on_segment", "C16.convex_between", "C16.isoResample_columns", "C16.linearResample_columns",
     "C16.smooth_endpoints_count", "C16.assemble_keeps_interior",
@@ -572,7 +573,73 @@ class PairSuite(Suite):
         return len(case["ends"]) >= 2
 
 
-SUITES = [BranchSuite(), TreeSuite(), PairSuite()]
+class AssembleSuite(Suite):
+    """`BranchTreeAssembler` on resampled branch trees: the parent column it builds against the model `Asm.assemble` (explicit stack, id
+    allocation by the length of the node list).  The model's input is the branch tree with, per key node, its children in the order in
+    which `pair` returns them and the number of interior samples kept on each branch (resampled length minus the trimmed end points)."""
+    name = "c16.assemble"
+    case_timeout = 30
+
+    def cases(self, rng, tier, widen):
+        out = []
+        big = tier == "thorough" or widen
+        k = 0
+        for _ in range(90 if big else 24):
+            n = rng.choice([2, 3, 5, 8, 13, 21] + ([40, 80] if big else []))
+            t = None
+            while t is None:
+                pids = gen.parents_sorted(rng, n, gen.pick_shape(rng, k)); k += 1
+                if rng.random() < 0.5:
+                    pids = gen.renumber_root0(rng, pids)
+                t = lattice_tree(rng, pids)
+            out.append({"class": f"n{min(n, 40)}", "tree": t, "d": rng.choice([0.25, 0.5, 1.0, 1.5, 2.5, 7.0]), "gap": rng.random() < 0.5})
+        return out
+
+    def run(self, case):
+        from swcgeom.core import BranchTree
+        from swcgeom.transforms.branch import BranchIsometricResampler
+        from swcgeom.transforms.branch_tree import BranchTreeAssembler
+
+        x = gen.make_tree(case["tree"])
+        bt = BranchTree.from_tree(x)
+        rs = BranchIsometricResampler(case["d"], adjust_last_gap=case["gap"])
+        bt.branches = {k: [rs(br) for br in brs] for k, brs in bt.branches.items()}
+        asm = BranchTreeAssembler()
+        # the model's input, read off the objects the assembler is handed (before it runs)
+        order, parent, m = [0], {0: -1}, {0: 0}            # key nodes of the branch tree in BFS order, children in pairing order
+        num = {int(bt.soma().id): 0}
+        queue = [bt.soma()]
+        eps = asm.EPS
+        while queue:
+            nd = queue.pop(0)
+            pairs = list(asm.pair(bt.branches.get(nd.id, []), nd.children()))
+            for br, c in pairs:
+                s = 1 if np.linalg.norm(br[0].xyz() - nd.xyz()) < eps else 0
+                e = 1 if np.linalg.norm(br[-1].xyz() - c.xyz()) < eps else 0
+                j = len(order)
+                num[int(c.id)] = j; order.append(j); parent[j] = num[int(nd.id)]; m[j] = len(br) - s - e
+                queue.append(c)
+        y = asm(bt)
+        return {"bt_pids": [parent[j] for j in order], "m": [m[j] for j in order], "pid": [int(v) for v in y.pid()], "id": [int(v) for v in y.id()]}
+
+    def lines(self, case, res):
+        if "exc" in res:
+            return []
+        return [(f"asm pids={gen.ints(res['bt_pids'])} m={gen.ints(res['m'])}", gen.ints(res["pid"]))]
+
+    def oracle(self, case, res):
+        if "exc" in res:
+            return [("assemble-raises", f"{res['exc']}: {res.get('msg')} on pids={case['tree']['pids']} d={case['d']}")]
+        pid = res["pid"]
+        out = []
+        if res["id"] != list(range(len(pid))) or pid[0] != -1 or any(not (0 <= p < k) for k, p in enumerate(pid) if k > 0):
+            out.append(("assemble-not-wellformed", f"assembled table ids {res['id'][:8]} pids {pid[:12]}: not a tree with parents before children"))
+        if len(pid) != 1 + sum(v + 1 for v in res["m"][1:]):
+            out.append(("assemble-count", f"{len(pid)} rows for {len(res['m'])} key nodes with {res['m'][1:]} interior samples"))
+        return out
+
+
+SUITES = [BranchSuite(), TreeSuite(), PairSuite(), AssembleSuite()]
 TECHNIQUE = ("Lean 4 theorems over ℚ about the models of np.interp / linspace (end points, equal steps no longer than the spacing, every sample a convex combination "
              "of two consecutive originals, radii by the same interpolation; over ℝ with the Euclidean norm: the polyline through the samples of both resamplers is no longer than the original, for any sorted abscissae), of the smoother (end points, count) and of the re-assembly rule (no interior sample "
              "lost; the greedy branch/child pairing returns a perfect matching at distance 0, also when sister branches end at one point) + differential correspondence with tolerance + an oracle that walks the original polyline by arc length")
